@@ -581,3 +581,319 @@ Proof.
   { unfold fn_call. simpl. rewrite fn_concat_strings. reflexivity. }
   rewrite Hc. reflexivity.
 Qed.
+
+(* ------------------------------------------------------------------ numbers *)
+From Coq Require Import Lqa.
+Local Open Scope Q_scope.
+
+Lemma qfloor_Qfloor : forall q, qfloor q = Qfloor q.
+Proof. intros [n d]. reflexivity. Qed.
+Lemma qceil_Qceiling : forall q, qceil q = Qceiling q.
+Proof. intros [n d]. reflexivity. Qed.
+
+(* floor / ceil / round bracket their argument *)
+Theorem floor_ceil_round_bracket : forall q,
+  (inject_Z (qfloor q) <= q /\ q < inject_Z (qfloor q) + 1) /\
+  (q <= inject_Z (qceil q) /\ inject_Z (qceil q) - 1 < q) /\
+  (inject_Z (qround q) - (1 # 2) <= q /\ q <= inject_Z (qround q) + (1 # 2)) /\
+  (qfloor q <= qceil q)%Z.
+Proof.
+  intros q.
+  assert (F : forall x, inject_Z (qfloor x) <= x /\ x < inject_Z (qfloor x) + 1).
+  { intros x. rewrite qfloor_Qfloor. split; [apply Qfloor_le|].
+    pose proof (Qlt_floor x) as H. rewrite inject_Z_plus in H. exact H. }
+  assert (C : forall x, x <= inject_Z (qceil x) /\ inject_Z (qceil x) - 1 < x).
+  { intros x. rewrite qceil_Qceiling. split; [apply Qle_ceiling|].
+    pose proof (Qceiling_lt x) as H. unfold Z.sub in H. rewrite inject_Z_plus in H. exact H. }
+  split; [apply F|]. split; [apply C|]. split.
+  - unfold qround. destruct (Qle_bool 0 q) eqn:E.
+    + destruct (F (q + (1 # 2))) as [H1 H2]. split; lra.
+    + destruct (C (q - (1 # 2))) as [H1 H2]. split; lra.
+  - destruct (F q) as [H1 _]. destruct (C q) as [H2 _].
+    assert (H : inject_Z (qfloor q) <= inject_Z (qceil q)) by lra.
+    rewrite <- Zle_Qle in H. exact H.
+Qed.
+
+Lemma fx_floor_call : forall q,
+  fx_call nm_floor [YS (VNum q)] = ynum (qofz (qfloor q)) /\
+  fx_call nm_ceil [YS (VNum q)] = ynum (qofz (qceil q)) /\
+  fx_call nm_round [YS (VNum q)] = ynum (qofz (qround q)) /\
+  fx_call nm_abs [YS (VNum q)] = ynum (qn (Qabs q)).
+Proof. intros q. repeat split; reflexivity. Qed.
+
+(* abs / sign *)
+Theorem abs_sign_spec : forall q,
+  0 <= qn (Qabs q) /\ (qn (Qabs q) == q \/ qn (Qabs q) == - q) /\
+  exists s, fx_call nm_sign [YS (VNum q)] = ynum s /\
+            ((0 < q /\ s = 1) \/ (q < 0 /\ s = inject_Z (-1)) \/ (q == 0 /\ s = 0)).
+Proof.
+  intros q. split; [|split].
+  - unfold qn. rewrite Qred_correct. apply Qabs_nonneg.
+  - unfold qn. rewrite Qred_correct. destruct (Qlt_le_dec q 0) as [H|H].
+    + right. apply Qabs_neg. lra.
+    + left. apply Qabs_pos. exact H.
+  - unfold fx_call. simpl. unfold fn_call. simpl. unfold qltb.
+    destruct (Qle_bool q 0) eqn:E1; simpl.
+    + destruct (Qle_bool 0 q) eqn:E2; simpl.
+      * exists 0. split; [reflexivity|]. right; right. apply Qle_bool_iff in E1. apply Qle_bool_iff in E2. split; [lra|reflexivity].
+      * exists (inject_Z (-1)). split; [reflexivity|]. right; left. split; [|reflexivity].
+        apply Qnot_le_lt. intros H. apply Qle_bool_iff in H. congruence.
+    + exists 1. split; [reflexivity|]. left. split; [|reflexivity].
+      apply Qnot_le_lt. intros H. apply Qle_bool_iff in H. congruence.
+Qed.
+
+Lemma qtrunc_Qeq : forall a b, a == b -> qtrunc a = qtrunc b.
+Proof.
+  intros [na da] [nb db] H. unfold Qeq in H. unfold qtrunc. simpl in *.
+  rewrite <- (Z.quot_mul_cancel_r na (Z.pos da) (Z.pos db)) by discriminate.
+  rewrite <- (Z.quot_mul_cancel_r nb (Z.pos db) (Z.pos da)) by discriminate.
+  rewrite H. f_equal. apply Z.mul_comm.
+Qed.
+
+(* mod: the remainder of the division truncated toward zero *)
+Theorem mod_spec : forall x y, ~ y == 0 ->
+  qmod x y == x - y * inject_Z (qtrunc (x / y)) /\
+  fx_call nm_mod [YS (VNum x); YS (VNum y)] = ynum (qmod x y) /\
+  fx_call nm_mod [YS (VNum x); YS (VNum 0)] = YErr.
+Proof.
+  intros x y Hy. split; [|split].
+  - unfold qmod, qsub, qmul, qdiv, qn, qofz. rewrite !Qred_correct.
+    rewrite (qtrunc_Qeq (Qred (x / y)) (x / y)) by apply Qred_correct. reflexivity.
+  - unfold fx_call. simpl. unfold fn_call. simpl.
+    assert (E : qzero y = false).
+    { unfold qzero. destruct (Qnum y =? 0)%Z eqn:E; [|reflexivity]. exfalso. apply Hy.
+      apply Z.eqb_eq in E. unfold Qeq. simpl. rewrite E. reflexivity. }
+    rewrite E. reflexivity.
+  - reflexivity.
+Qed.
+
+(* power: natural exponents multiply, negative ones invert *)
+Theorem power_spec : forall x (n m : nat),
+  qpown x 0 = 1 /\ qpown x (S n) == x * qpown x n /\ qpown x (n + m) == qpown x n * qpown x m.
+Proof.
+  intros x n m. split; [reflexivity|]. split.
+  - simpl. unfold qmul, qn. apply Qred_correct.
+  - induction n as [|n IH]; simpl.
+    + ring.
+    + unfold qmul, qn. rewrite !Qred_correct. rewrite IH. ring.
+Qed.
+
+(* trunc(x, p): cut toward zero after p decimals *)
+Lemma p10_pos : forall k, (0 < p10 k)%Z.
+Proof. intros k. unfold p10. apply Z.pow_pos_nonneg; lia. Qed.
+
+Definition trunc_val (q : Q) (k : nat) : Q :=
+  if Qle_bool 0 q then qunscale (qfloor (qscale q k)) k else qunscale (qceil (qscale q k)) k.
+
+Theorem trunc_spec : forall q k,
+  let u := 1 / inject_Z (p10 k) in
+  (0 <= q -> trunc_val q k <= q /\ q < trunc_val q k + u) /\
+  (q < 0 -> q <= trunc_val q k /\ trunc_val q k - u < q).
+Proof.
+  intros q k u.
+  assert (Hm : 0 < inject_Z (p10 k)).
+  { replace 0 with (inject_Z 0) by reflexivity. rewrite <- Zlt_Qlt. apply p10_pos. }
+  assert (Hs : qscale q k == q * inject_Z (p10 k)).
+  { unfold qscale, qmul, qn, qofz. apply Qred_correct. }
+  assert (Hu : forall z, qunscale z k == inject_Z z / inject_Z (p10 k)).
+  { intros z. unfold qunscale, qdiv, qn, qofz. apply Qred_correct. }
+  destruct (floor_ceil_round_bracket (qscale q k)) as [[F1' F2'] [[C1' C2'] _]].
+  assert (F1 : inject_Z (qfloor (qscale q k)) <= q * inject_Z (p10 k)) by (rewrite <- Hs; exact F1').
+  assert (F2 : q * inject_Z (p10 k) < inject_Z (qfloor (qscale q k)) + 1) by (rewrite <- Hs; exact F2').
+  assert (C1 : q * inject_Z (p10 k) <= inject_Z (qceil (qscale q k))) by (rewrite <- Hs; exact C1').
+  assert (C2 : inject_Z (qceil (qscale q k)) - 1 < q * inject_Z (p10 k)) by (rewrite <- Hs; exact C2').
+  split; intros Hq; unfold trunc_val.
+  - assert (E : Qle_bool 0 q = true) by (apply Qle_bool_iff; exact Hq). rewrite E. rewrite Hu. split.
+    + apply Qle_shift_div_r; [exact Hm|exact F1].
+    + unfold u. setoid_replace (inject_Z (qfloor (qscale q k)) / inject_Z (p10 k) + 1 / inject_Z (p10 k))
+        with ((inject_Z (qfloor (qscale q k)) + 1) / inject_Z (p10 k)) by (field; lra).
+      apply Qlt_shift_div_l; [exact Hm|exact F2].
+  - assert (E : Qle_bool 0 q = false).
+    { destruct (Qle_bool 0 q) eqn:E; [|reflexivity]. apply Qle_bool_iff in E. lra. }
+    rewrite E. rewrite Hu. split.
+    + apply Qle_shift_div_l; [exact Hm|exact C1].
+    + unfold u. setoid_replace (inject_Z (qceil (qscale q k)) / inject_Z (p10 k) - 1 / inject_Z (p10 k))
+        with ((inject_Z (qceil (qscale q k)) - 1) / inject_Z (p10 k)) by (field; lra).
+      apply Qlt_shift_div_r; [exact Hm|exact C2].
+Qed.
+
+Lemma qtrunc_inject : forall z, qtrunc (inject_Z z) = z.
+Proof. intros z. unfold qtrunc, inject_Z. simpl. apply Z.quot_1_r. Qed.
+Lemma to_int64_Z : forall z, (Z.abs z < two63)%Z -> to_int64 (VNum (inject_Z z)) = OVal z.
+Proof.
+  intros z H. unfold to_int64, in_int64. rewrite qtrunc_inject.
+  assert (E : (Z.abs z <? two63)%Z = true) by (apply Z.ltb_lt; exact H). rewrite E. reflexivity.
+Qed.
+
+Lemma fx_trunc_call : forall q (k : nat), (Z.of_nat k <= 15)%Z ->
+  fx_call nm_trunc [YS (VNum q); YS (VNum (inject_Z (Z.of_nat k)))] = ynum (trunc_val q k).
+Proof.
+  intros q k Hk.
+  assert (H63 : (Z.abs (Z.of_nat k) < two63)%Z) by (unfold two63; simpl; lia).
+  unfold fx_call.
+  assert (Ha : fx_arity nm_trunc = Some (2%nat, Some 2%nat)) by reflexivity. rewrite Ha.
+  assert (Hf : fn_call nm_trunc [VNum q; VNum (inject_Z (Z.of_nat k))] = FUnmodelled) by reflexivity.
+  simpl scalars. cbv beta iota. rewrite Hf. simpl negb. cbv iota.
+  assert (Hb : fx_body nm_trunc [YS (VNum q); YS (VNum (inject_Z (Z.of_nat k)))] =
+               with_float (YS (VNum q)) (fun q0 => with_int (YS (VNum (inject_Z (Z.of_nat k)))) (fun z =>
+                 if (z <? 0)%Z then YErr else if (15 <? z)%Z then YUnm
+                 else let k0 := Z.to_nat z in
+                      ynum (if Qle_bool 0 q0 then qunscale (qfloor (qscale q0 k0)) k0 else qunscale (qceil (qscale q0 k0)) k0))))
+    by reflexivity.
+  rewrite Hb. unfold with_float, with_int. simpl to_float. rewrite (to_int64_Z _ H63).
+  assert (E1 : (Z.of_nat k <? 0)%Z = false) by (apply Z.ltb_ge; lia). rewrite E1.
+  assert (E2 : (15 <? Z.of_nat k)%Z = false) by (apply Z.ltb_ge; lia). rewrite E2.
+  rewrite Nat2Z.id. reflexivity.
+Qed.
+
+(* bit operations on int64 values *)
+Theorem bit_ops_spec : forall a b, (Z.abs a < two63)%Z -> (Z.abs b < two63)%Z ->
+  fx_call nm_bitand [YS (VNum (inject_Z a)); YS (VNum (inject_Z b))] = yint (Z.land a b) /\
+  fx_call nm_bitor [YS (VNum (inject_Z a)); YS (VNum (inject_Z b))] = yint (Z.lor a b) /\
+  fx_call nm_bitxor [YS (VNum (inject_Z a)); YS (VNum (inject_Z b))] = yint (Z.lxor a b) /\
+  fx_call nm_bitnot [YS (VNum (inject_Z a))] = yint (Z.lnot a) /\
+  (forall i, (0 <= i)%Z ->
+     Z.testbit (Z.land a b) i = Z.testbit a i && Z.testbit b i /\
+     Z.testbit (Z.lor a b) i = Z.testbit a i || Z.testbit b i /\
+     Z.testbit (Z.lxor a b) i = xorb (Z.testbit a i) (Z.testbit b i) /\
+     Z.testbit (Z.lnot a) i = negb (Z.testbit a i)).
+Proof.
+  intros a b Ha Hb.
+  assert (G2 : forall n (op : Z -> Z -> Z),
+            fx_arity n = Some (2%nat, Some 2%nat) ->
+            fn_call n [VNum (inject_Z a); VNum (inject_Z b)] = FUnmodelled ->
+            fx_body n [YS (VNum (inject_Z a)); YS (VNum (inject_Z b))] =
+              with_int (YS (VNum (inject_Z a))) (fun x => with_int (YS (VNum (inject_Z b))) (fun y => yint (op x y))) ->
+            fx_call n [YS (VNum (inject_Z a)); YS (VNum (inject_Z b))] = yint (op a b)).
+  { intros n op H1 H2 H3. unfold fx_call. rewrite H1. simpl scalars. cbv beta iota. rewrite H2. simpl negb. cbv iota.
+    rewrite H3. unfold with_int. rewrite (to_int64_Z _ Ha), (to_int64_Z _ Hb). reflexivity. }
+  split; [apply G2; reflexivity|]. split; [apply G2; reflexivity|]. split; [apply G2; reflexivity|]. split.
+  - unfold fx_call. assert (H1 : fx_arity nm_bitnot = Some (1%nat, Some 1%nat)) by reflexivity. rewrite H1.
+    assert (H2 : fn_call nm_bitnot [VNum (inject_Z a)] = FUnmodelled) by reflexivity.
+    simpl scalars. cbv beta iota. rewrite H2. simpl negb. cbv iota.
+    assert (H3 : fx_body nm_bitnot [YS (VNum (inject_Z a))] = with_int (YS (VNum (inject_Z a))) (fun x => yint (Z.lnot x))) by reflexivity.
+    rewrite H3. unfold with_int. rewrite (to_int64_Z _ Ha). reflexivity.
+  - intros i Hi. repeat split.
+    + apply Z.land_spec.
+    + apply Z.lor_spec.
+    + apply Z.lxor_spec.
+    + apply Z.lnot_spec. exact Hi.
+Qed.
+
+(* ------------------------------------------------------------------ conditionals *)
+(* greatest / least over numbers: one of the arguments, and a bound of all of them *)
+Lemma fn_extreme_nums : forall gt qs q0,
+  exists qr, fn_extreme gt (VNum q0) (map VNum qs) = FOk (VNum qr) /\ In qr (q0 :: qs) /\
+             forall q, In q (q0 :: qs) -> if gt then q <= qr else qr <= q.
+Proof.
+  intros gt. induction qs as [|b qs IH]; intros q0.
+  - exists q0. split; [reflexivity|]. split; [left; reflexivity|].
+    intros q [H|[]]. subst. destruct gt; apply Qle_refl.
+  - simpl map. simpl fn_extreme.
+    set (c := if gt then qltb q0 b else qltb b q0).
+    destruct c eqn:Ec; subst c.
+    + destruct (IH b) as [qr [H1 [H2 H3]]]. exists qr. split; [exact H1|]. split.
+      * destruct H2 as [H2|H2]; [right; left; exact H2|right; right; exact H2].
+      * intros q [Hq|[Hq|Hq]].
+        -- subst q. assert (Hb := H3 b (or_introl eq_refl)).
+           destruct gt; unfold qltb in Ec; apply negb_true_iff in Ec.
+           ++ assert (q0 < b) by (apply Qnot_le_lt; intros H; apply Qle_bool_iff in H; congruence). lra.
+           ++ assert (b < q0) by (apply Qnot_le_lt; intros H; apply Qle_bool_iff in H; congruence). lra.
+        -- subst q. apply H3. left. reflexivity.
+        -- apply H3. right. exact Hq.
+    + destruct (IH q0) as [qr [H1 [H2 H3]]]. exists qr. split; [exact H1|]. split.
+      * destruct H2 as [H2|H2]; [left; exact H2|right; right; exact H2].
+      * intros q [Hq|[Hq|Hq]].
+        -- subst q. apply H3. left. reflexivity.
+        -- subst q. assert (Hb := H3 q0 (or_introl eq_refl)).
+           destruct gt; unfold qltb in Ec; apply negb_false_iff in Ec; apply Qle_bool_iff in Ec; lra.
+        -- apply H3. right. exact Hq.
+Qed.
+
+Theorem greatest_least_spec : forall (gt : bool) q0 qs,
+  exists qr, fx_call (if gt then nm_greatest else nm_least) (map (fun q => YS (VNum q)) (q0 :: qs)) = ynum qr /\
+             In qr (q0 :: qs) /\ forall q, In q (q0 :: qs) -> if gt then q <= qr else qr <= q.
+Proof.
+  intros gt q0 qs. destruct (fn_extreme_nums gt qs q0) as [qr [H1 H2]]. exists qr. split; [|exact H2].
+  assert (Hs : scalars (map (fun q => YS (VNum q)) (q0 :: qs)) = Some (map VNum (q0 :: qs))).
+  { generalize (q0 :: qs). induction l as [|x l IHl]; simpl; [reflexivity|rewrite IHl; reflexivity]. }
+  unfold fx_call. rewrite Hs.
+  destruct gt.
+  - assert (Ha : fx_arity nm_greatest = Some (1%nat, None)) by reflexivity. rewrite Ha.
+    assert (Hk : arity_ok (1%nat, None) (length (map (fun q => YS (VNum q)) (q0 :: qs))) = true) by reflexivity. rewrite Hk.
+    simpl negb. cbv iota.
+    assert (Hc : fn_call nm_greatest (map VNum (q0 :: qs)) = fn_extreme true (VNum q0) (map VNum qs)) by reflexivity.
+    rewrite Hc, H1. reflexivity.
+  - assert (Ha : fx_arity nm_least = Some (1%nat, None)) by reflexivity. rewrite Ha.
+    assert (Hk : arity_ok (1%nat, None) (length (map (fun q => YS (VNum q)) (q0 :: qs))) = true) by reflexivity. rewrite Hk.
+    simpl negb. cbv iota.
+    assert (Hc : fn_call nm_least (map VNum (q0 :: qs)) = fn_extreme false (VNum q0) (map VNum qs)) by reflexivity.
+    rewrite Hc, H1. reflexivity.
+Qed.
+
+(* coalesce: the first argument that is not NULL, NULL when there is none *)
+Fixpoint first_non_null (l : list yvalue) : yvalue :=
+  match l with
+  | [] => YS VNull
+  | YS VNull :: r => first_non_null r
+  | v :: _ => v
+  end.
+
+Theorem coalesce_spec : forall args, args <> [] ->
+  fx_call nm_coalesce args = YOk (first_non_null args) /\
+  (forall pre v post, args = pre ++ v :: post -> Forall (fun x => x = YS VNull) pre -> v <> YS VNull ->
+     first_non_null args = v) /\
+  (Forall (fun x => x = YS VNull) args -> first_non_null args = YS VNull).
+Proof.
+  intros args Hne. split; [|split].
+  - unfold fx_call. assert (Ha : fx_arity nm_coalesce = Some (1%nat, None)) by reflexivity. rewrite Ha.
+    assert (Hk : arity_ok (1%nat, None) (length args) = true) by (destruct args; [contradiction|reflexivity]). rewrite Hk.
+    simpl negb. cbv iota.
+    assert (Hb : fx_body nm_coalesce args = YOk (first_non_null args)).
+    { destruct args as [|a args]; [contradiction|].
+      assert (G : forall l, (fix go (l : list yvalue) : yvalue :=
+                   match l with [] => YS VNull | YS VNull :: r => go r | v :: _ => v end) l = first_non_null l).
+      { intros l. reflexivity. }
+      change (fx_body nm_coalesce (a :: args)) with
+        (YOk ((fix go (l : list yvalue) : yvalue :=
+                 match l with [] => YS VNull | YS VNull :: r => go r | v :: _ => v end) (a :: args))).
+      rewrite G. reflexivity. }
+    destruct (scalars args) as [vs|] eqn:Es; [|exact Hb].
+    assert (Hc : fn_call nm_coalesce vs = FOk ((fix go (l : list xvalue) : xvalue :=
+                   match l with [] => VNull | VNull :: r => go r | v :: _ => v end) vs)).
+    { destruct vs as [|v vs]; [|reflexivity]. destruct args as [|a args]; [contradiction|].
+      simpl in Es. destruct a; [|discriminate]. destruct (scalars args); discriminate. }
+    rewrite Hc. f_equal.
+    clear Hne Hk Hb Hc. revert vs Es. induction args as [|a args IH]; intros vs Es.
+    + simpl in Es. inversion Es. reflexivity.
+    + simpl in Es. destruct a as [v|]; [|discriminate]. destruct (scalars args) as [vs'|] eqn:E; [|discriminate].
+      inversion Es; subst. destruct v; try reflexivity. simpl. apply IH. reflexivity.
+  - intros pre v post -> Hpre Hv. clear Hne. induction Hpre as [|x pre Hx Hpre IH]; simpl.
+    + destruct v as [[| | |]|]; try reflexivity. contradiction.
+    + subst x. exact IH.
+  - intros H. clear Hne. induction H as [|x l Hx Hl IH]; [reflexivity|]. subst x. simpl. exact IH.
+Qed.
+
+(* null_if / if_null *)
+Theorem null_if_spec : forall x y,
+  fx_call nm_null_if [x; y] = (if yeq x y then ynull else YOk x) /\
+  fx_call nm_if_null [x; y] = YOk (match x with YS VNull => y | _ => x end) /\
+  yeq x x = true.
+Proof.
+  intros x y. split; [|split].
+  - destruct x as [vx|lx]; destruct y as [vy|ly]; reflexivity.
+  - destruct x as [[| | |]|lx]; destruct y as [vy|ly]; reflexivity.
+  - destruct x as [vx|lx]; simpl; [apply veq_refl|]. induction lx as [|a l IH]; simpl; [reflexivity|].
+    rewrite veq_refl, IH. reflexivity.
+Qed.
+
+(* the type tests partition the values *)
+Theorem type_tests_spec : forall v,
+  fx_call nm_is_null [v] = ybool (match v with YS VNull => true | _ => false end) /\
+  fx_call nm_is_not_null [v] = ybool (match v with YS VNull => false | _ => true end) /\
+  fx_call nm_is_numeric [v] = ybool (match v with YS (VNum _) => true | _ => false end) /\
+  fx_call nm_is_string [v] = ybool (match v with YS (VStr _) => true | _ => false end) /\
+  fx_call nm_is_bool [v] = ybool (match v with YS (VBool _) => true | _ => false end) /\
+  fx_call nm_is_array [v] = ybool (match v with YA _ => true | _ => false end) /\
+  fx_call nm_array_length [v] = (match v with YA l => yint (Z.of_nat (length l)) | YS _ => YErr end).
+Proof. intros v. destruct v as [[| | |]|l]; repeat split; reflexivity. Qed.
